@@ -31,7 +31,16 @@ BROKEN = ["x = = 1", "def (", "a b c ) (", "s = 'unterminated", "for in x:", "if
 
 def bind_stmt(rng, name, val):
     """Return (lines, kind): source lines that bind `name` to int `val` at the current scope."""
-    k = rng.choice(["assign", "tuple", "starred", "augmented", "annotated", "from-import-as", "for", "with", "walrus", "chained", "try-else", "except-inner", "unpack-list", "while"])
+    k = rng.choice(["assign", "tuple", "starred", "augmented", "annotated", "from-import-as", "for", "with", "walrus", "chained", "try-else", "except-inner", "unpack-list", "while", "for-nested-target", "for-starred-target", "with-nested-target", "async-for-in-def"])
+    if k == "for-nested-target":
+        return [f"for _i, ({name}, _j) in [(0, ({val}, 1))]:", "    pass"], k
+    if k == "for-starred-target":
+        return [f"for _i, [{name}, *_j] in [(0, [{val}, 1, 2])]:", "    pass"], k
+    if k == "with-nested-target":
+        return [f"with _cm(({val}, (1, 2))) as ({name}, (_p, _q)):", "    pass"] if rng.random() < 0.5 else [f"with _cm((0, ({val}, 2))) as (_p, ({name}, _q)):", "    pass"], k
+    if k == "async-for-in-def":
+        k = "for-nested-target"
+        return [f"for (_i, ({name},)) in [(0, ({val},))]:", "    pass"], k
     if k == "assign":
         return [f"{name} = {val}"], k
     if k == "tuple":
